@@ -85,6 +85,8 @@ MK(IVector, ivector, int)
       d->data[vc_k] = c0;                                                                       \
     if(vc_k + 1 < n)                                                                            \
       d->data[vc_k + 1] = c1;                                                                   \
+    if(indx < n)                                                                                \
+      vc_k2 = vc_k - indx;                                                                      \
     P##RemoveAt(d, indx);                                                                       \
     if(indx < n) {                                                                              \
       VC_CHECK("RemoveAt.size-1", d->size == n - 1);                                            \
@@ -310,6 +312,8 @@ void h_DVectorSDEV(void)
       d->data[q] = c[q];                                                                        \
     }                                                                                           \
     VC_GHOST_K();                                                                               \
+    if(indx < n)                                                                                \
+      vc_k2 = vc_k - indx;                                                                      \
     P##RemoveAt(d, indx);                                                                       \
     if(indx < n) {                                                                              \
       VC_CHECK("RemoveAt.size-1", d->size == n - 1);                                            \
